@@ -377,6 +377,7 @@ class MultiStream(Stream):
         else:
             stream = Stream.__new__(Stream)
             stream._ID = stream._sink = stream._source = None
+            stream._price = 0.
             stream._imol = self._imol.get_phase(phase)
             stream._thermal_condition = self._thermal_condition
             stream._thermo = self._thermo
